@@ -1355,6 +1355,13 @@ func (broker *Broker) startRetry(wg *sync.WaitGroup) {
 			broker.info("Ignoring changed failed file:", file.GetName())
 			continue
 		}
+		if cached.GetHash() != file.GetHash() {
+			// Same as above except that the scan has already picked up the
+			// change: the version that failed is not the one in the cache,
+			// which is already in the send Q (or about to be hashed again)
+			broker.info("Ignoring replaced failed file:", file.GetName())
+			continue
+		}
 		hashed = &hashFile{File: cached}
 		log.Debug("Recomputing hash:", file.GetName())
 		fh, err = opener(hashed)
